@@ -107,10 +107,10 @@ func verifC04Rules() {
 		pad = vBytes(3) // any padding that is not all zero (several non-zero bytes included)
 		vAssume(pad[0] != 0 || pad[1] != 0 || pad[2] != 0)
 	case 8:
-		what = "R8a malformed outer-extension list (odd length, length beyond the data, empty data, bytes after the list)"
+		what = "R8a malformed outer-extension list (odd length, length beyond the data, empty data, bytes after the list, empty list)"
 		class, desc = ErrDecodeError, 50
-		shapes := [][]byte{{3, 0, 51, 0}, {4, 0, 51}, {}, {2, 0, 51, 0xAA}}
-		inner.exts = append(inner.exts, vExt{0xfd00, shapes[vInt(0, 3)]})
+		shapes := [][]byte{{3, 0, 51, 0}, {4, 0, 51}, {}, {2, 0, 51, 0xAA}, {0}} // (the list holds 1..127 types: OuterExtensions<2..254>)
+		inner.exts = append(inner.exts, vExt{0xfd00, shapes[vInt(0, 4)]})
 	case 9:
 		what = "R8b references out of order"
 		lists := [][]uint16{{10, 51}, {51, 13, 10}, {10, 13, 51}}
